@@ -395,6 +395,46 @@ def folder_visible_tables() -> List[str]:
     return out
 
 
+# ------------------------------------------------------------------------------------------------- the is-on gate of the node observations
+def on_gate(cls: ast.ClassDef) -> Tuple[str, str, str, bool, List[str]]:
+    """The power gate of a node observation's `observe`:
+    (the expression `is_on` is assigned, with the state variable written `S`; the test of the branching `if`; what the not-ON branch
+    does: 'copy-default' / other; every `.observe(` call of a component sits inside the ON branch; statements after the if/else)."""
+    fn = find_method(cls, "observe")
+    rhs = "<none>"
+    for n in ast.walk(fn):
+        if isinstance(n, ast.Assign) and ast.unparse(n.targets[0]) == "is_on":
+            if isinstance(n.value, ast.Compare) and isinstance(n.value.left, ast.Subscript):
+                rhs = "S" + ast.unparse(n.value)[len(ast.unparse(n.value.left.value)):]
+            else:
+                rhs = ast.unparse(n.value)
+    gate = None
+    for i, st in enumerate(fn.body):
+        if isinstance(st, ast.If) and "is_on" in ast.unparse(st.test):
+            gate = (i, st)
+    if gate is None:
+        # no `if … is_on` at the top level of observe: report how the power state is tested instead (any top-level If mentioning operating_state)
+        tests = [ast.unparse(st.test) for st in fn.body if isinstance(st, ast.If) and "operating_state" in ast.unparse(st.test)]
+        return rhs, "<no is_on branch>: " + "; ".join(tests), "?", False, []
+    i, st = gate
+    test = ast.unparse(st.test)
+    if test == "not is_on":
+        off_body, on_body = st.body, st.orelse
+    elif test == "is_on":
+        off_body, on_body = st.orelse, st.body
+    else:
+        off_body, on_body = [], []
+    off = "other"
+    if len(off_body) == 1 and isinstance(off_body[0], ast.Assign) and ast.unparse(off_body[0].value) == "{**self.default_observation}":
+        off = "copy-default"
+
+    def observes(stmts) -> int:
+        return sum(1 for s_ in stmts for n in ast.walk(s_) if isinstance(n, ast.Call) and isinstance(n.func, ast.Attribute) and n.func.attr == "observe")
+    outside = observes(fn.body[:i]) + observes(fn.body[i + 1:]) + observes(off_body)
+    after = [ast.unparse(x) for x in fn.body[i + 1:]]
+    return rhs, test, off, outside == 0 and observes(on_body) > 0, after
+
+
 # ------------------------------------------------------------------------------------------------- ACLObservation construction paths
 def acl_construction_tables() -> List[str]:
     """Which methods of ACLObservation de-duplicate the four lists (`dict.fromkeys`), and every place that constructs an ACLObservation:
@@ -486,5 +526,10 @@ def emit() -> str:
     out += doc_tables()
     out.append("")
     out += acl_construction_tables()
+    out.append("")
+    for name in ("HostObservation", "RouterObservation", "FirewallObservation"):
+        rhs, test, off, inside, after = on_gate(cls[name])
+        out.append(f"def {name}_onGate : String × String × String × Bool × List String := "
+                   f"({q(rhs)}, {q(test)}, {q(off)}, {'true' if inside else 'false'}, {lean_list([q(a) for a in after])})")
     out.append("end Primaite.Gen.ObsCfgTables\n")
     return "\n".join(out)
